@@ -97,6 +97,12 @@ type PropFile struct{ Prop, File, Re string }
 
 type MapOrderDirective struct{ Prop, File string }
 
+// GlobalStateDirective: the package-level variables that may change after initialisation
+type GlobalStateDirective struct {
+	Prop    string
+	Allowed []string
+}
+
 type ResetDirective struct {
 	Prop, Type, Reset string
 	Readers, Ignore   []string
@@ -115,6 +121,7 @@ type EnsuresAll struct {
 
 type ContractFile struct {
 	MapOrders  []MapOrderDirective
+	GlobalStates []GlobalStateDirective
 	Resets     []ResetDirective
 	ClauseAll  []ClauseAll
 	EnsuresAll []EnsuresAll
@@ -212,6 +219,21 @@ func processContractLines(cf *ContractFile, lines []string, lnos []int) error {
 				}
 			}
 			cf.Effects = append(cf.Effects, d)
+			cur = nil
+			continue
+		case strings.HasPrefix(t, "globalstate "):
+			// globalstate Cxx | name, name, ...
+			parts := strings.SplitN(strings.TrimPrefix(t, "globalstate "), "|", 2)
+			if len(parts) != 2 {
+				return fmt.Errorf("line %d: globalstate Cxx | allowed globals", no)
+			}
+			d := GlobalStateDirective{Prop: strings.TrimSpace(parts[0])}
+			for _, f := range strings.Split(parts[1], ",") {
+				if f = strings.TrimSpace(f); f != "" {
+					d.Allowed = append(d.Allowed, f)
+				}
+			}
+			cf.GlobalStates = append(cf.GlobalStates, d)
 			cur = nil
 			continue
 		case strings.HasPrefix(t, "maporder "):
